@@ -9,7 +9,14 @@ from . import build
 
 
 def run(check, tier, rec, timeout=3600):
-    exe = build.build_rsx()
+    try:
+        exe = build.build_rsx()
+    except build.MachineryError as e:
+        # the harness links the crate's internal API: a tree that renames or re-types one of those items cannot be
+        # explored by RSX. That is an engine error (exit 2 unless the other engines of this check record a violation),
+        # not a verdict - but the Python engine of the same check still runs.
+        rec.machinery_errors.append(str(e))
+        return None
     out = os.path.join(build.CACHE, "rsx-%s-%d.json" % (check, os.getpid()))
     env = dict(os.environ)
     env["RUST_BACKTRACE"] = "0"
